@@ -123,4 +123,15 @@ theorem C01_tgen_get_found :
 theorem C28_tgen_banned :
     op_isbanned_len = "<=" ∧ op_isbanned_off = "<" ∧ ord_get_banned = "ascending" ∧
     ord_parseitem_banned = "ascending" ∧ has_ban_add = "yes" ∧ ord_ban_steps = "ascending" := by decide
+/-- reader / flusher protocol (`Props/C01Flush.lean`): readers pick the memtables before the level
+    tables (`NewIterator`, `DB.get`), the flusher publishes the L0 table before it retires the
+    memtable. -/
+theorem C01_tgen_reader_flusher_order :
+    ord_newiterator_mem_levels = "ascending" ∧ ord_dbget_mem_levels = "ascending" ∧
+    ord_flusher_l0_imm = "ascending" := by decide
+theorem C12_tgen_reader_flusher_order :
+    ord_newiterator_mem_levels = "ascending" ∧ ord_dbget_mem_levels = "ascending" ∧
+    ord_flusher_l0_imm = "ascending" := by decide
+theorem C31_tgen_reader_flusher_order :
+    ord_newiterator_mem_levels = "ascending" ∧ ord_flusher_l0_imm = "ascending" := by decide
 end Badger
